@@ -242,3 +242,11 @@ class Opaque:
 
     def __repr__(self):
         return "Opaque(%s)" % self.why
+
+
+class OpaqueTable:
+    """a table whose contents only steer heuristic choices (defaultdict(int) of pair frequencies): reads give an
+    arbitrary integer, writes are forgotten.  Sound for every property that does not depend on *which* choice is made."""
+
+    def __init__(self, why):
+        self.why = why
